@@ -26,6 +26,7 @@ EXPLANATION = (
     ' (G4) the carbon label compares sums over every component of the two sides (shared with C07-E6); (G5) ids used as list positions are positions of that list (shared with C06-B2); (G6) before the input check the solved column is set to the constant False for every row on every path (a verdict of an earlier run cannot survive); (G7) the composition the input check compares is a total, injective function of the element (shared with C07-E1).'
     ' (G10) no row disappears because an equal row shares its batch (shared with C05-P1, duplicates).'
     ' (G11) a column option of a stage object is passed on to every callee with a parameter of that name (judged on the program as written); (G12) computed annotations are not shadowed by keys unpacked from the row.'
+    ' (G13) the carbon count behind the carbon label tests every atom by element; a substructure query counts only by atomic number (shared with C07-E13).'
 )
 ASSUMPTIONS = [
     "the tool's balance verdict is the reference (its coincidence with an independent verdict is C07 behaviour, not decided)",
